@@ -591,10 +591,52 @@ _B = {"kernel_quantizer": "ternary", "depthwise_quantizer": "binary",
       "recurrent_activation_quantizer": "quantized_bits(3,0,1)"}
 
 
+_RNN = ("SimpleRNN", "LSTM", "GRU", "Bidirectional")
+_MODE_PRIO = {"class": 0, "none": 1, "both": 2, "hidden": 3, "name": 4,
+              "with_act": 5}
+
+
+def _dag_cases():
+  """A small functional DAG: skip connection (Add) and Concatenate."""
+  conv = {"filters": 2, "kernel_size": [3, 3], "padding": "same",
+          "activation": "relu"}
+  layers = [
+      {"name": "conv_a", "cls": "Conv2D", "kw": conv, "in": [KM.INPUT_NAME]},
+      {"name": "add_1", "cls": "Add", "kw": {}, "in": [KM.INPUT_NAME, "conv_a"]},
+      {"name": "conv_b", "cls": "Conv2D", "kw": dict(conv, filters=1),
+       "in": ["add_1"]},
+      {"name": "cat_1", "cls": "Concatenate", "kw": {"axis": -1},
+       "in": ["conv_b", "conv_a"]},
+      {"name": "act_1", "cls": "Activation", "kw": {"activation": "tanh"},
+       "in": ["cat_1"]},
+      {"name": "flat", "cls": "Flatten", "kw": {}, "in": ["act_1"]},
+      {"name": "fc", "cls": "Dense", "kw": {"units": 2}, "in": ["flat"]},
+  ]
+  desc = {"api": "functional", "input_shape": [4, 4, 2], "layers": layers,
+          "outputs": ["fc", "act_1"], "wseed": 11}
+  full = {"kernel_quantizer": _A["kernel_quantizer"],
+          "bias_quantizer": _A["bias_quantizer"]}
+  other = {"kernel_quantizer": _B["kernel_quantizer"],
+           "bias_quantizer": _B["bias_quantizer"]}
+  out = []
+  for qd, tr in (({"QConv2D": full}, True),
+                 ({"conv_b": other, "QConv2D": full,
+                   "QActivation": {"tanh": "quantized_tanh(5)"}}, True),
+                 ({"conv_a": {"bias_quantizer": _B["bias_quantizer"]},
+                   "QConv2D": full, "QDense": other}, False)):
+    out.append({"model": desc, "qdict": qd, "activation_bits": 6,
+                "transfer": tr, "prefer_adaptive": False,
+                "custom_objects": "empty"})
+  return out
+
+
 def lattice(quick=False):
-  """Deterministic single-class cases (quick: use_bias=False and Sequential
-  variants only with the class-entry mode)."""
-  cases = []
+  """Deterministic cases: every convertible class alone x selection mode,
+  ordered so that the class-entry / no-entry modes of all classes come first
+  (a starved run still reaches every class).  quick: use_bias=False and
+  Sequential variants only with the class-entry mode, recurrent classes (1-4 s
+  per conversion) only with the class / none / both modes."""
+  cases = [(0, c) for c in _dag_cases()]
   for shape, cls, kw, tail in _templates():
     biases = [True, False] if cls in (
         "Conv2D", "DepthwiseConv2D", "SeparableConv2D", "Conv1D",
@@ -616,23 +658,32 @@ def lattice(quick=False):
                 "outputs": ["tail"], "wseed": 7}
         if api == "sequential":
           desc["seq_input"] = "kw"
+        variant = ub is False or api == "sequential"
         for mode in ("none", "class", "name", "both", "hidden", "with_act"):
-          if quick and mode != "class" and (ub is False or
-                                            api == "sequential"):
+          if quick and mode != "class" and variant:
             continue
+          if quick and cls in _RNN and (
+              mode in ("hidden", "name", "with_act") or
+              (variant and cls != "LSTM")):
+            if not (cls == "LSTM" and mode == "with_act"):
+              continue
           qd = _lattice_dict(target, mode)
           if qd is None:
             continue
-          cases.append({"model": desc, "qdict": qd, "activation_bits": 5,
-                        "transfer": mode in ("class", "both"),
-                        "prefer_adaptive": False, "custom_objects":
-                        "aux" if mode == "name" else "none"})
+          prio = _MODE_PRIO[mode] + (6 if variant else 0)
+          cases.append((prio, {
+              "model": desc, "qdict": qd, "activation_bits": 5,
+              "transfer": mode in ("class", "both"),
+              "prefer_adaptive": False,
+              "custom_objects": "aux" if mode == "name" else "none"}))
           if cls == "Activation" and mode in ("class", "name"):
             qd2 = _lattice_dict(target, mode, adaptive=True)
-            cases.append({"model": desc, "qdict": qd2, "activation_bits": 5,
-                          "transfer": False, "prefer_adaptive": mode == "name",
-                          "custom_objects": "none"})
-  return cases
+            cases.append((prio, {
+                "model": desc, "qdict": qd2, "activation_bits": 5,
+                "transfer": False, "prefer_adaptive": mode == "name",
+                "custom_objects": "none"}))
+  cases.sort(key=lambda pc: pc[0])      # stable
+  return [c for _, c in cases]
 
 
 def _lattice_dict(ld, mode, adaptive=False):
@@ -692,7 +743,7 @@ def case_strategy(ctx):
 
   @st.composite
   def gen(draw):
-    desc = draw(KM.model_descs())
+    desc = draw(KM.model_descs(max_rnn=1 if ctx.quick else 2))
     prefer = draw(st.sampled_from([False, False, False, True]))
     qd = draw(QD.qdicts(desc, prefer))
     return {"model": desc, "qdict": qd,
@@ -707,9 +758,13 @@ def case_strategy(ctx):
 def run(ctx):
   lat = lattice(ctx.quick)
   ctx.info["lattice_size"] = len(lat) if ctx.idx == 0 else 0
+  # quick: the enumeration may use at most 60% of the budget, the rest is
+  # reserved for the random part (a slow machine must not make it vacuous)
+  reserve = 0.4 * ctx.budget_s if ctx.quick else 60.0
   for case in ctx.shard(lat):
-    if ctx.time_left() <= 0:
+    if ctx.time_left() <= reserve:
       ctx.labels["inconclusive_time"] += 1
+      ctx.labels["lattice_cut_short"] += 1
       break
     _emit(ctx, case, oracle(ctx, case, origin="lattice"))
 
